@@ -1,0 +1,44 @@
+//go:build verif
+
+package db
+
+import (
+	"github.com/syndtr/goleveldb/leveldb"
+
+	"github.com/zenon-network/go-zenon/common/types"
+)
+
+// VerifWriteHook, when set, is called before every write to the underlying leveldb made by ldbManager.Add,
+// ldbManager.Pop and ApplyPatch on a raw leveldb. Verification harnesses use it as a crash point / scheduling point.
+var VerifWriteHook func(site string)
+
+func verifWrite(site string) {
+	if h := VerifWriteHook; h != nil {
+		h(site)
+	}
+}
+
+// VerifLevelDB exposes the raw leveldb handle of a leveldb-backed Manager (nil otherwise) so that a harness can dump
+// the whole key space, including the patch and rollback prefixes which no DB view shows.
+func VerifLevelDB(m Manager) *leveldb.DB {
+	if l, ok := m.(*ldbManager); ok {
+		return l.ldb
+	}
+	return nil
+}
+
+// VerifCachedViews lists the identifiers for which the leveldb-backed Manager currently holds a cached rollback overlay.
+func VerifCachedViews(m Manager) []types.HashHeight {
+	l, ok := m.(*ldbManager)
+	if !ok || l.l1Cache == nil {
+		return nil
+	}
+	out := make([]types.HashHeight, 0)
+	for _, k := range l.l1Cache.Keys() {
+		out = append(out, k.(types.HashHeight))
+	}
+	for _, k := range l.l2Cache.Keys() {
+		out = append(out, k.(types.HashHeight))
+	}
+	return out
+}
